@@ -128,7 +128,8 @@ type LeafOptions struct {
 	CutLoops bool
 	cache    map[*ssa.Function][]*Leaf
 	stack    map[*ssa.Function]bool
-	site     *int // call sites expanded so far (gives inlined locals distinct identifiers)
+	site     *int                     // call sites expanded so far (gives inlined locals distinct identifiers)
+	funcs    map[string]*ssa.Function // elements of function tables met on a path, by name
 }
 
 // Leaves enumerates the entry→return paths of a loop-free function. With
@@ -141,6 +142,7 @@ func Leaves(fn *ssa.Function, opt LeafOptions) ([]*Leaf, error) {
 		opt.cache = map[*ssa.Function][]*Leaf{}
 		opt.stack = map[*ssa.Function]bool{}
 		opt.site = new(int)
+		opt.funcs = map[string]*ssa.Function{}
 	}
 	if opt.CutLoops {
 		if fn == nil || len(fn.Blocks) == 0 {
@@ -458,8 +460,53 @@ func enumerate(fn *ssa.Function, opt LeafOptions, cx *callCtx, cut bool) ([]*Lea
 						}
 					}
 				}
+				if lk, ok := in.(*ssa.Lookup); ok && opt.Inline != nil && bind[lk] == nil {
+					if ft := lookupTable(lk); ft != nil {
+						// a look-up in a function table is a switch on the key (functab.go)
+						kt := b.Term(lk.Index)
+						val := func(fn *Term, ok bool) *Term {
+							if !lk.CommaOk {
+								return fn
+							}
+							return &Term{Op: "tuple", Args: []*Term{fn, Const(constant.MakeBool(ok), types.Typ[types.Bool])}}
+						}
+						fork := func(gs []*Term, v *Term) {
+							nb := make(map[ssa.Value]*Term, len(bind)+1)
+							for k, bv := range bind {
+								nb[k] = bv
+							}
+							nb[lk] = v
+							process(i+1, gs, eff, nb, mem, cuts, bs, hp)
+						}
+						absent, absentOK := guards, true
+						for ki, k := range ft.Keys {
+							g := Bin("==", kt, Const(k, lk.Index.Type()))
+							if gs, keep := addGuard(guards, g); keep {
+								opt.funcs[ft.Fns[ki].String()] = ft.Fns[ki]
+								fork(gs, val(&Term{Op: OFunc, Str: ft.Fns[ki].String(), Obj: ft.Fns[ki].Object()}, true))
+							}
+							if absentOK {
+								absent, absentOK = addGuard(absent, NotCond(g))
+							}
+						}
+						if absentOK {
+							fork(absent, val(&Term{Op: OConst, Typ: lk.X.Type().Underlying().(*types.Map).Elem()}, false))
+						}
+						return
+					}
+				}
 				if call, ok := in.(*ssa.Call); ok && opt.Inline != nil {
-					if callee := call.Call.StaticCallee(); callee != nil && len(callee.Blocks) > 0 && opt.Inline(callee) {
+					callee := call.Call.StaticCallee()
+					viaTable := false
+					if callee == nil && !call.Call.IsInvoke() {
+						// a call through an element of a function table (functab.go)
+						if ft := b.Term(call.Call.Value); ft.Op == OFunc {
+							if callee = opt.funcs[ft.Str]; callee != nil {
+								viaTable = isTableLiteral(callee)
+							}
+						}
+					}
+					if callee != nil && len(callee.Blocks) > 0 && (viaTable || opt.Inline(callee)) {
 						var args []*Term
 						for _, a := range call.Call.Args {
 							args = append(args, b.Term(a))
